@@ -178,6 +178,8 @@ func init() {
 				c.R.Violate("gen:crash:"+tag, fmt.Sprintf("group=%s plugin process failed: %s %s", g.Group, g.Crash, trunc(g.Stderr, 400)), replay)
 			case g.Error != "":
 				c.R.Violate("gen:error:"+tag, fmt.Sprintf("group=%s plugin answered with an error for a valid proto3 schema: %s", g.Group, trunc(g.Error, 400)), replay)
+			case g.InitPanic != "":
+				c.R.Violate("gen:init-panic:"+tag, fmt.Sprintf("group=%s the generated package panics when it is loaded: %s", g.Group, trunc(g.InitPanic, 600)), replay)
 			case g.CompileErr != "":
 				c.R.Violate("gen:compile:"+tag, fmt.Sprintf("group=%s generated sources do not compile: %s", g.Group, trunc(g.CompileErr, 600)), replay)
 			}
